@@ -16,6 +16,17 @@ HISTORY = {
     "C20-1": "first run: missed by C20, C12 and C01; C20's products now put the large exponent into a later indeterminate while the lexicographically last product row stays small (2 and 3 indeterminates)",
     "C15-2": "first run: C13 ended inconclusive (reading the unpickled object raised inside the harness) and C15 skipped the case because it failed under defaults too; an exception while reading a returned object is now a violation ('malformed'/'unreadable'), C15 gained whole programs built inside the option block and a pickle entry with retained zero terms",
     "C17-2": "first run: missed by C17; the direct pass now drives polynomials with bool coefficients (and astype'd copies in five dtypes) through the logical functions",
+    "C01-3": "round 2. first run: caught by C12 and C20, missed by C01; C01's leaves now also come in int16/int32/float32/complex64 (the numpy fallback path of multiply)",
+    "C01-4": "round 2. needs the global option retain_names=False: caught by C15 (the property that quantifies over configurations); C01 runs under default options only",
+    "C02-3": "round 2. first run: caught by C17, missed by C02; C02 now calls the numpoly.call spelling a second time with the very same args/kwargs objects",
+    "C03-3": "round 2. first run: missed; the constructor workload now passes the retain flags explicitly while the global options say the opposite",
+    "C03-4": "round 2. pickle is not one of the three rebuild routes of C03: caught by C13",
+    "C08-4": "round 2. first run: missed; the operator table now uses the same object on both sides, with NaN / inf coefficients",
+    "C12-3": "round 2. first run: missed; the cast oracle now multiplies into an explicit out= polynomial of another dtype (same-kind casts only)",
+    "C17-3": "round 2. first run: missed; the direct pass now calls multiply / square / add / ... with where= masks on already aligned operands",
+    "C17-4": "round 2. first run: caught by C06 only; the argument snapshot now contains a copy of the public exponents (not just keys and bytes), and operands are reused after differentiation",
+    "C20-3": "round 2 (same two-site mechanism as C17-4, written independently). first run: caught by C06 only; C20 gained 'reuse' sequences (operand used again after derivative / gradient / call), C17 the exponent snapshot",
+    "C20-4": "round 2. first run: missed; the text part now also goes through BytesIO and files with encoding latin1 / utf-8 / default",
     "C06-2": "first run: caught by C06, missed by C15; C15's derivative entry now differentiates with respect to several variables",
 }
 REJECTED = [
